@@ -514,6 +514,7 @@ func (w *world) event(kind string, n, ts uint64, plan prunePlan) eventResult {
 	}
 	after := func(wi writeInfo) {
 		res.Writes++
+		w.quiescent = false // the implementation is inside a prune, whatever the model thinks
 		w.res.Hit("prune:batch-write")
 		var o string
 		if wi.HasRange && !w.fixed {
@@ -700,6 +701,7 @@ func (w *world) observe() {
 			b = w.ch.g.Bundles[n]
 		}
 		c := ctxOf(b, uint64(n))
+		c.Head = uint64(w.height)
 		for _, rq := range readerQueries() {
 			// the calls close over the Blockchain they are built for: build them per side
 			nodeCalls := rq.Run(w.node, w.nodeDB, c)
@@ -820,7 +822,7 @@ func (w *world) oracle(items []obsItem, headClass, headDet string) {
 		switch {
 		case int(it.n) > w.height:
 			// beyond the head: not found like on the twin
-			if it.class != "notfound" && it.class != "pruned" {
+			if it.class != "notfound" && it.class != "pruned" && !(it.model == "eventsFrom" && it.class == "ok") {
 				w.violate("beyond-head-"+fam+"-"+cw+"-"+sit, where)
 			}
 			continue
